@@ -225,7 +225,40 @@ func behindDepthStep(p *Prog, c ssa.Instruction) bool {
 			}
 			return false
 		}
-		return !pol && refusingCompare(p, f, cond)
+		if !pol && refusingCompare(p, f, cond) {
+			return true
+		}
+		return false
+	}) || behindBoolDepthStep(p, c)
+}
+
+// behindBoolDepthStep: c is reached only on the `within` edge of the result of an enter-helper (boolDepthStep) whose
+// other edge only returns errors.
+func behindBoolDepthStep(p *Prog, c ssa.Instruction) bool {
+	f := c.Parent()
+	return Guarded(c, func(cond ssa.Value, pol bool) bool {
+		bs, _, ok := boolStepCond(p, cond)
+		if !ok || pol != bs.withinWhen {
+			return false
+		}
+		// the other edge of the branch on this condition returns errors only
+		for _, b := range f.Blocks {
+			iff, isIf := b.Instrs[len(b.Instrs)-1].(*ssa.If)
+			if !isIf {
+				continue
+			}
+			cc, pp := normCond(iff.Cond, true)
+			if stripLoad(cc) != stripLoad(cond) {
+				continue
+			}
+			// Succs[0] is taken when iff.Cond holds, i.e. when cc == pp
+			refusing := 0
+			if pp == bs.withinWhen {
+				refusing = 1
+			}
+			return errorReturnsOnly(f, b.Succs[refusing])
+		}
+		return false
 	})
 }
 
@@ -1533,6 +1566,39 @@ func c01ExecCounters(p *Prog, a *Anchors) []c01Counter {
 			seen[name] = len(out)
 			out = append(out, c01Counter{h, fa.Field, name, k, p.FuncName(f)})
 		}
+	}
+	// … and counters stepped and tested in an enter-helper (`enter(limit) (leave, within)`): the bound is what the
+	// callers pass
+	for _, g := range p.inPkgFuncsSorted(ereach) {
+		bs, ok := boolDepthStep(p, g)
+		if !ok {
+			continue
+		}
+		h := structOf(bs.field.X.Type())
+		if h == nil {
+			continue
+		}
+		bound := bs.boundConst
+		if bs.boundParam != nil {
+			bound = 0
+			for _, s := range paramActualSites(p, bs.boundParam) {
+				if k, isK := constInt(s.val); isK && k > bound {
+					bound = k
+				}
+			}
+		}
+		if bound <= 0 {
+			continue
+		}
+		name := h.Obj().Name() + "." + fieldName(bs.field.X.Type(), bs.field.Field)
+		if i, dup := seen[name]; dup {
+			if bound > out[i].bound {
+				out[i].bound, out[i].at = bound, p.FuncName(g)
+			}
+			continue
+		}
+		seen[name] = len(out)
+		out = append(out, c01Counter{h, bs.field.Field, name, bound, p.FuncName(g)})
 	}
 	return out
 }
